@@ -26,8 +26,8 @@ PROOF_MODULES = ["C09/ExpandSound3.vo", "C09/MultinomialProofs.vo", "C09/Example
 BIG = 6000
 
 
-def idem_class(rdump):
-    """class of a non-idempotent result, from the first expansion"""
+def idem_class(rdump, edump=None):
+    """class of a non-idempotent result, from the first expansion (and the operand)"""
     try:
         t = A.parse_sexp(rdump)
     except ValueError:
@@ -48,7 +48,51 @@ def idem_class(rdump):
         for k in (u if (u and isinstance(u[0], list)) else u[1:]):
             walk(k, under_add or (u and u[0] == "Add"))
     walk(t, False)
-    return "negative-power-of-sum-kept-unexpanded" if found else "other"
+    if found:
+        return "negative-power-of-sum-kept-unexpanded"
+    return FRAC if frac_power_class(edump, rdump) else "other"
+
+
+FRAC = "integer-power-of-sum-from-fractional-power"
+
+
+def frac_power_class(edump, rdump):
+    """Known finding (same root cause as DESIGN row 38: pow_expand / square_expand / mul_expand_two multiply already
+    expanded terms with pow() / mul() and do not expand the product): is EVERY product with a sum / positive integer
+    power of a sum S that is left in expand(e) (outside function arguments, the driver's own walker) a power S**k of
+    a sum S of which a NON-INTEGER rational power S**(p/q) occurs in expand(e) or in e itself (so S**k is
+    (S**(p/q))**j produced inside the multinomial / binomial product), and is there at least one?  Any other
+    unexpanded product keeps the generic key."""
+    offenders, fracs = [], set()
+
+    def walk(u, off):
+        if isinstance(u, str) or not u or not isinstance(u[0], str):
+            return
+        ents = []
+        if u[0] == "Add":
+            for ent in u[2:]:
+                if isinstance(ent, list) and len(ent) == 2:
+                    walk(ent[0], off)
+            return
+        if u[0] == "Mul":
+            ents = [ent for ent in u[2:] if isinstance(ent, list) and len(ent) == 2]
+        elif u[0] == "Pow" and len(u) == 3:
+            ents = [u[1:3]]
+        for base, ex in ents:
+            if isinstance(base, list) and base and base[0] == "Add" and isinstance(ex, list) and ex:
+                if ex[0] == "I" and int(ex[1]) >= 1:
+                    if off:
+                        offenders.append(A.show_sexp(A.canon_sexp(base)))
+                elif ex[0] == "Q":
+                    fracs.add(A.show_sexp(A.canon_sexp(base)))
+            walk(base, off)
+    try:
+        walk(A.parse_sexp(rdump), True)
+        if edump:
+            walk(A.parse_sexp(edump), False)
+    except (ValueError, IndexError):
+        return False
+    return bool(offenders) and all(o in fracs for o in offenders)
 
 
 def run(ctx):
@@ -129,10 +173,10 @@ def explore(ctx, drv, model, xs, ds, ms, stats, search=False):
         for o in oracles:
             kind = o.split(" ;; ")[0].strip()
             if kind == "idem":
-                ctx.violation("C09/not-idempotent:" + idem_class(rdump),
+                ctx.violation("C09/not-idempotent:" + idem_class(rdump, edump),
                               "expand(expand(e)) != expand(e) for recipe %s: expand(e) = %s, again = %s" % (rec, rdump[:300], o[8:][:300]), rp)
             elif kind == "complete":
-                ctx.violation("C09/incomplete", "expand(e) still contains a product or positive integer power of a sum: recipe %s, result %s" % (rec, rdump[:400]), rp)
+                ctx.violation("C09/incomplete" + (":" + FRAC if frac_power_class(edump, rdump) else ""), "expand(e) still contains a product or positive integer power of a sum: recipe %s, result %s" % (rec, rdump[:400]), rp)
             elif kind == "value":
                 ctx.violation("C09/value-changed", "expand changed the value of recipe %s (%s): result %s" % (rec, o[9:], rdump[:300]), rp)
         if len(main) > 5 and main[5].isdigit():
@@ -184,7 +228,7 @@ def explore(ctx, drv, model, xs, ds, ms, stats, search=False):
         if deep == "1":
             stats["expanded_checked"] = stats.get("expanded_checked", 0) + 1
             if fr[0] == "0":
-                ctx.violation("C09/incomplete", "the extracted predicate `expanded` rejects expand(e): recipe %s, result %s" % (rec, rdump[:400]),
+                ctx.violation("C09/incomplete" + (":" + FRAC if frac_power_class(edump, rdump) else ""), "the extracted predicate `expanded` rejects expand(e): recipe %s, result %s" % (rec, rdump[:400]),
                               {"family": "expsubs", "case": line})
     # ---- decides
     for (p, qq), line, out in zip(ds, dlines, do):
